@@ -42,14 +42,15 @@ def finish(res, spec):
     if unlisted:
         path = common.write_replay(res.pid, {"property": res.pid, "kind": "failing input on the implementation",
                                               "case": unlisted[0], "more_cases": unlisted[1:6],
-                                              "broken_obligations": res.broken[:10],
+                                              "broken_obligations": res.broken[:10], "seed": res.seed, "tier": res.tier,
                                               "replay_cmd": "/venv/bin/python check.py %s --replay <this file>" % res.pid})
         lines.append("VIOLATION property=%s replay=%s" % (res.pid, path))
         exit_code = 1
     elif res.broken:
         path = common.write_replay(res.pid, {"property": res.pid,
                                               "kind": "proof obligation or correspondence no longer checks; search found no failing input",
-                                              "broken_obligations": res.broken[:20]})
+                                              "broken_obligations": res.broken[:20], "seed": res.seed, "tier": res.tier,
+                                              "replay_cmd": "/venv/bin/python check.py %s --replay <this file>" % res.pid})
         lines.append("VIOLATION property=%s replay=%s no-failing-input-found" % (res.pid, path))
         exit_code = 1
     if not res.samples:
@@ -135,7 +136,25 @@ def run_check(pid, tier, seed, replay=None):
         registry.thorough_lean(res, mods)
     # 4./5. correspondence + oracle on the implementation
     if replay:
+        # every random choice derives from (property, tier, seed): the recorded run is repeated on the current tree and only
+        # what the replay file recorded counts - the same kind of failing input, or the same obligations
         registry.replay(res, spec, replay)
+        data = json.load(open(replay))
+        for scope in spec["scopes"]:
+            dis, fails = scope(res, pid, rng, tier)
+            for d in dis:
+                res.broken.append(("correspondence", scope.__name__, d))
+            res.violations.extend(fails)
+        want = (data.get("case") or {}).get("kind")
+        if want is not None:
+            res.violations = [v for v in res.violations if v.get("kind") == want]
+            res.broken = []
+            print("replay: the recorded kind of failing input %s on the current tree" % ("RECURS" if res.violations else "does not recur"))
+        else:
+            names = set(str(b[1]) for b in data.get("broken_obligations", []))
+            res.violations = []
+            res.broken = [b for b in res.broken if str(b[1]) in names]
+            print("replay: %d of the recorded obligations / correspondences still fail" % len(res.broken))
     else:
         registry.corpus(res, spec)
         for scope in spec["scopes"]:
@@ -161,7 +180,8 @@ def main(argv):
     seed = int(os.environ.get("VERIF_SEED", "0") or 0)
     try:
         if argv[1] == "--replay":
-            return run_check(pid, "quick", seed, replay=argv[2])
+            data = json.load(open(argv[2]))
+            return run_check(pid, data.get("tier", "quick"), int(data.get("seed", seed)), replay=argv[2])
         tier = argv[1]
         return run_check(pid, tier, seed)
     except Infra as e:
